@@ -11,7 +11,7 @@ RULE = (
     "seeded strings over {letters, space, TAB, LF, VT, CR, other C0 controls, & < > \" ' ]]>, NBSP, U+2028, astral, "
     "literal '_x0041_'} of length 0..14 (empty, whitespace-only, leading/trailing/runs of breaks forced in), assigned at "
     "frame (text box, auto shape), cell, paragraph and run level onto bodies in seeded prior states (several paragraphs, "
-    "a:fld, a:br, a:pPr with attributes, a:endParaRPr); observation = .text at that level + the a:p/a:r/a:br skeleton, "
+    "a:fld, a:br, a:pPr with attributes, a:endParaRPr; the same string already assigned at another level or twice); observation = .text at that level + the a:p/a:r/a:br skeleton, "
     "immediately and after 1..3 save/re-open cycles; model compared exactly; the documented translation is also "
     "evaluated by an independent Python oracle on the real read-back.  Non-trivial = distinct (level, prior, string)."
 )
@@ -157,6 +157,13 @@ def correspond(ctx):
                 c.prior = prior_state(rng, tf)
                 c.loc = ("shape", prs.slides.index(slide), len(slide.shapes) - 1)
                 if level in ("frame", "shape"):
+                    hist = rng.random()
+                    if hist < 0.1:
+                        tf.paragraphs[0].text = s       # the same string first at paragraph level
+                        c.prior += "+same-string-at-paragraph-level"
+                    elif hist < 0.15:
+                        tf.text = s
+                        c.prior += "+same-string-twice"
                     if level == "shape":
                         shp.text = s
                     else:
@@ -171,6 +178,18 @@ def correspond(ctx):
                     p = tf.paragraphs[k]
                     ppr_before = etree.tostring(p._p.pPr) if p._p.pPr is not None else None
                     others_before = [q.text for j, q in enumerate(tf.paragraphs) if j != k]
+                    # cross-level history: the same string (or its reading) is already there, put there at ANOTHER level
+                    hist = rng.random()
+                    if hist < 0.12:
+                        for r0 in list(p.runs):
+                            p._p.remove(r0._r)
+                        for b0 in p._p.findall("{http://schemas.openxmlformats.org/drawingml/2006/main}br"):
+                            p._p.remove(b0)
+                        p.add_run().text = s            # run level keeps a line feed as a character
+                        c.prior += "+same-string-at-run-level"
+                    elif hist < 0.2:
+                        p.text = s
+                        c.prior += "+same-string-twice"
                     has_ppr, has_end = p._p.pPr is not None, p._p.endParaRPr is not None
                     p.text = s
                     c.k = k
